@@ -168,7 +168,10 @@ func KeyName(t *tape.Tape, i int) []byte {
 	case 5:
 		return append(t.Bytes(1+t.Choose(6), nil), []byte(fmt.Sprintf("#%d", i))...)
 	case 6:
-		return []byte(strconv.Itoa(1000 + i)) // integer-looking key
+		// integer-looking key (the writer may store it in the 8/16/32-bit integer form), around the width boundaries and
+		// negative as well; i keeps the names distinct
+		base := []int{1000, -300, -129, -32768, 127, 128, 32767, 32768, -2147483648, 2147483647 - 100000, -1, 0, -128 - 50000}[t.Choose(13)]
+		return []byte(strconv.Itoa(base + i))
 	default:
 		return append([]byte(fmt.Sprintf("k%d:", i)), t.Bytes(t.Choose(30), []byte("abc{} \r\n\x00"))...)
 	}
